@@ -817,3 +817,39 @@ let nsync_mu_semaphore_v_cas1_new old_value =
     (Z.add old_value
       (wrap_u (Zpos (Coq_xO (Coq_xO (Coq_xO (Coq_xO (Coq_xO Coq_xH))))))
         (Zpos Coq_xH)))
+
+(** val nsync_run_once_impl_cas1_new : coq_Z **)
+
+let nsync_run_once_impl_cas1_new =
+  wrap_u (Zpos (Coq_xO (Coq_xO (Coq_xO (Coq_xO (Coq_xO Coq_xH)))))) (Zpos
+    Coq_xH)
+
+(** val nsync_run_once_impl_cas1_old : coq_Z **)
+
+let nsync_run_once_impl_cas1_old =
+  wrap_u (Zpos (Coq_xO (Coq_xO (Coq_xO (Coq_xO (Coq_xO Coq_xH)))))) Z0
+
+(** val nsync_run_once_impl_cas1_guard : coq_Z -> bool **)
+
+let nsync_run_once_impl_cas1_guard o =
+  (&&)
+    (negb
+      (Z.eqb o
+        (wrap_u (Zpos (Coq_xO (Coq_xO (Coq_xO (Coq_xO (Coq_xO Coq_xH))))))
+          (Zpos (Coq_xO Coq_xH)))))
+    (Z.eqb o
+      (wrap_u (Zpos (Coq_xO (Coq_xO (Coq_xO (Coq_xO (Coq_xO Coq_xH)))))) Z0))
+
+(** val nsync_run_once_impl_load2_guard : coq_Z -> bool **)
+
+let nsync_run_once_impl_load2_guard o =
+  negb
+    (Z.eqb o
+      (wrap_u (Zpos (Coq_xO (Coq_xO (Coq_xO (Coq_xO (Coq_xO Coq_xH))))))
+        (Zpos (Coq_xO Coq_xH))))
+
+(** val nsync_run_once_impl_store1_new : coq_Z **)
+
+let nsync_run_once_impl_store1_new =
+  wrap_u (Zpos (Coq_xO (Coq_xO (Coq_xO (Coq_xO (Coq_xO Coq_xH)))))) (Zpos
+    (Coq_xO Coq_xH))
